@@ -330,7 +330,8 @@ def run_scenarios(seed, start, count, clauses):
                 m3 = pydrex.Mineral(phase=m.phase, fabric=m.fabric, regime=m.regime, n_grains=n, fractions_init=b["f"].copy(), orientations_init=b["O"] @ Q.T)
                 gL, gp = b["get_L"], b["get_pos"]
                 # rotate the frame; positions enter L only through x[0] in the time-dependent family, keep the same pathline argument
-                F3 = drive(m3, params, Q @ b["F0"], (lambda t, x: Q @ gL(t, gp(t)) @ Q.T), gp, b["times"])
+                ks = 1e-12 if idx % 4 == 1 else 1.0  # every fourth scenario: the rotated run in SI-like units (covariant by C05)
+                F3 = drive(m3, params, Q @ b["F0"], (lambda t, x: ks * (Q @ gL(t * ks, gp(t * ks)) @ Q.T)), (lambda t: gp(t * ks)), b["times"] / ks)
                 dO = np.abs(np.asarray(m3.orientations[-1]) - np.asarray(m.orientations[-1]) @ Q.T).max()
                 df = np.abs(np.asarray(m3.fractions[-1]) - np.asarray(m.fractions[-1])).max() * n
                 dF = np.abs(F3 - Q @ F).max() / max(1e-12, np.abs(F).max())
@@ -458,6 +459,24 @@ def run_null_scenarios(seed, start, count):
                 Fref = reference_F(Lgen, gp, F0, times[0], times[-1])
                 if np.abs(F - Fref).max() / np.abs(Fref).max() > 1e-2:
                     msgs.append(f"regime {regime}: F does not follow dF/dt = L F")
+                # the same after a save / load round trip of the (viscosity-bound) mineral: it must stay viscosity-bound
+                if idx % 3 == 0:
+                    import os
+                    import tempfile
+
+                    tmpd = tempfile.mkdtemp(prefix="pvnull", dir=os.environ.get("VERIF_SCRATCH"))
+                    pth = os.path.join(tmpd, "m.npz")
+                    m.save(pth, "x")
+                    for mr in (pydrex.Mineral.from_file(pth, "x"), (lambda q: (q.load(pth, "x"), q)[1])(pydrex.Mineral(n_grains=3, seed=1))):
+                        if int(mr.regime) != regime or int(mr.fabric) != fb or int(mr.phase) != ph:
+                            msgs.append(f"regime {regime}: restored mineral has phase/fabric/regime {int(mr.phase)}/{int(mr.fabric)}/{int(mr.regime)}")
+                            continue
+                        drive(mr, params, F, Lgen, gp, times + times[-1])
+                        unchanged(mr, f"regime {regime} after save / load")
+                    try:
+                        os.unlink(pth); os.rmdir(tmpd)
+                    except OSError:
+                        pass
             # (ii) zero velocity gradient and rigid rotation in the dislocation regimes
             for regime in (4, 6):
                 m = mk(regime)
